@@ -381,7 +381,9 @@ func (w *world) boot() {
 		panic(fmt.Sprintf("cannot construct the key manager: %v", err))
 	}
 	w.km = km
+	w.mu.Lock()
 	w.lives++
+	w.mu.Unlock()
 }
 
 // call runs one public call of the key manager under a fault plan. outcome: "ok" | "err" | "crash".
@@ -973,48 +975,73 @@ func concurrent(seed int64, rounds, spe int, res *vh.Result) {
 	rng := rand.New(rand.NewSource(seed))
 	for r := 0; r < rounds; r++ {
 		beh := fmt.Sprintf("conc-%d", r)
-		w := newWorldDB(spe, res, beh, false) // own database: requests stuck in the dependency's lock are abandoned
+		// own result and own database per round: requests stuck in the dependency's lock are abandoned with the
+		// round (they may never touch the next round's state)
+		local := vh.NewResult()
+		w := newWorldDB(spe, local, beh, false)
 		if out, _, err := w.addShare(plan{K: "none"}); out != "ok" {
 			panic(fmt.Sprintf("AddShare failed: %v", err))
 		}
 		phases := 2 + rng.Intn(4)
-		for ph := 0; ph < phases; ph++ {
+		deadlocked := false
+		for ph := 0; ph < phases && !deadlocked; ph++ {
+			w.mu.Lock()
 			w.step = ph
+			w.mu.Unlock()
 			clock := int(w.net.slot.Load()) + 1 + rng.Intn(spe+1)
 			w.net.slot.Store(uint64(clock))
 			ep := clock / spe
-			n := 2 + rng.Intn(7)
 			type req struct {
 				att     bool
 				s, t, d int
 			}
-			reqs := make([][]req, n)
-			for g := 0; g < n; g++ {
-				k := 1 + rng.Intn(3)
-				for j := 0; j < k; j++ {
-					if rng.Intn(3) != 0 {
-						t := ep
-						if rng.Intn(4) == 0 {
-							t = 1 + rng.Intn(ep)
+			mkAtt := func() req {
+				t := ep
+				if rng.Intn(4) == 0 {
+					t = 1 + rng.Intn(ep)
+				}
+				s := t - 1
+				if rng.Intn(3) == 0 {
+					s = rng.Intn(t)
+				}
+				return req{true, s, t, 1 + rng.Intn(3)}
+			}
+			mkBlk := func() req {
+				slot := clock
+				if rng.Intn(4) == 0 {
+					slot = 1 + rng.Intn(clock)
+				}
+				return req{false, 0, slot, 1 + rng.Intn(4)}
+			}
+			var reqs [][]req
+			if rng.Intn(2) == 0 {
+				// one attester and one proposer goroutine: the two duties use different account locks in
+				// SimpleSigner and really overlap (shared: wallet lock, storage lock, database)
+				var as, bs []req
+				for j := 0; j < 2+rng.Intn(4); j++ {
+					as = append(as, mkAtt())
+					bs = append(bs, mkBlk())
+				}
+				reqs = [][]req{as, bs}
+			} else {
+				// 2..8 goroutines with mixed requests for the one share
+				n := 2 + rng.Intn(7)
+				reqs = make([][]req, n)
+				for g := 0; g < n; g++ {
+					for j := 0; j < 1+rng.Intn(3); j++ {
+						if rng.Intn(3) != 0 {
+							reqs[g] = append(reqs[g], mkAtt())
+						} else {
+							reqs[g] = append(reqs[g], mkBlk())
 						}
-						s := t - 1
-						if rng.Intn(3) == 0 {
-							s = rng.Intn(t)
-						}
-						reqs[g] = append(reqs[g], req{true, s, t, 1 + rng.Intn(3)})
-					} else {
-						slot := clock
-						if rng.Intn(4) == 0 {
-							slot = 1 + rng.Intn(clock)
-						}
-						reqs[g] = append(reqs[g], req{false, 0, slot, 1 + rng.Intn(4)})
 					}
 				}
 			}
 			km := w.km
 			var wg sync.WaitGroup
+			var progress int64
 			start := make(chan struct{})
-			for g := 0; g < n; g++ {
+			for g := range reqs {
 				wg.Add(1)
 				go func(rs []req) {
 					defer wg.Done()
@@ -1031,6 +1058,7 @@ func concurrent(seed int64, rounds, spe int, res *vh.Result) {
 								w.releasedBlk(q.t, q.d, root, true, "")
 							}
 						}
+						atomic.AddInt64(&progress, 1)
 						atomic.AddInt64(&concCalls, 1)
 					}
 				}(reqs[g])
@@ -1038,31 +1066,46 @@ func concurrent(seed int64, rounds, spe int, res *vh.Result) {
 			close(start)
 			done := make(chan struct{})
 			go func() { wg.Wait(); close(done) }()
-			select {
-			case <-done:
-			case <-time.After(400 * time.Millisecond):
-				// SimpleSigner.lock/unlock (eth2-key-manager v1.4.0) deadlocks under contention for one account:
-				// a liveness matter outside C04. The stuck requests never return, hence never release a signature.
-				res.Counters["phases_deadlocked"]++
-				w.boot() // the operator restarts the node
+			last, lastAt := int64(-1), time.Now()
+		wait:
+			for {
+				select {
+				case <-done:
+					break wait
+				case <-time.After(25 * time.Millisecond):
+					if p := atomic.LoadInt64(&progress); p != last {
+						last, lastAt = p, time.Now()
+					} else if time.Since(lastAt) > 700*time.Millisecond {
+						// SimpleSigner.lock/unlock (eth2-key-manager v1.4.0) deadlocks as soon as two requests
+						// contend for one account lock: a liveness matter outside C04. The stuck requests never
+						// return, hence never release a signature. The round ends here (one signer object per
+						// database, always).
+						deadlocked = true
+						break wait
+					}
+				}
 			}
 			res.Counters["concurrent_phases"]++
-			if rng.Intn(4) == 0 {
-				w.boot()
+			if deadlocked {
+				res.Counters["phases_deadlocked"]++
+			} else if rng.Intn(4) == 0 {
+				w.boot() // restart between phases: a new signer object on the same database, nothing in flight
 			}
 		}
-		// quiescent cross-check (conformance, not a verdict): the records cover everything released
-		w.mu.Lock()
-		af, as, at := w.rawAtt()
-		pf, pv := w.rawProp()
-		for _, a := range w.atts {
-			if !af || a.S > as || a.T > at {
-				res.Diverge(beh, 0, "record-covers-released", fmt.Sprintf("att (%d,%d)", a.S, a.T), fmt.Sprintf("record f=%v (%d,%d)", af, as, at))
+		w.mu.Lock() // late returns of an abandoned round serialise with this block
+		if !deadlocked {
+			// quiescent cross-check (conformance, not a verdict): the records cover everything released
+			af, as, at := w.rawAtt()
+			pf, pv := w.rawProp()
+			for _, a := range w.atts {
+				if !af || a.S > as || a.T > at {
+					local.Diverge(beh, 0, "record-covers-released", fmt.Sprintf("att (%d,%d)", a.S, a.T), fmt.Sprintf("record f=%v (%d,%d)", af, as, at))
+				}
 			}
-		}
-		for _, b := range w.blks {
-			if !pf || b.Slot > pv {
-				res.Diverge(beh, 0, "record-covers-released", fmt.Sprintf("block %d", b.Slot), fmt.Sprintf("record f=%v %d", pf, pv))
+			for _, b := range w.blks {
+				if !pf || b.Slot > pv {
+					local.Diverge(beh, 0, "record-covers-released", fmt.Sprintf("block %d", b.Slot), fmt.Sprintf("record f=%v %d", pf, pv))
+				}
 			}
 		}
 		res.Counters["released_attestations"] += len(w.atts)
@@ -1070,9 +1113,16 @@ func concurrent(seed int64, rounds, spe int, res *vh.Result) {
 		if len(w.atts)+len(w.blks) >= 2 {
 			res.Nontrivial++
 		}
+		res.Violations = append(res.Violations, local.Violations...)
+		res.Divergences = append(res.Divergences, local.Divergences...)
+		res.Counters["violations"] += local.Counters["violations"]
+		res.Counters["divergences"] += local.Counters["divergences"]
+		w.res = vh.NewResult() // anything that returns after this point belongs to an abandoned round
 		w.mu.Unlock()
 		res.Behaviours++
-		// the database is not closed: requests stuck in the dependency's lock may still hold references
+		if !deadlocked {
+			w.close()
+		}
 	}
 	res.Steps += int(atomic.LoadInt64(&concCalls))
 	res.Counters["concurrent_calls"] = int(atomic.LoadInt64(&concCalls))
